@@ -18,7 +18,9 @@ ASSUMPTIONS = cc.ASSUMPTIONS_CORE
 
 def extra(tier, rng):
     return [cc.cancel_case(na, nb, h, we) for na in (1, 2, 3, 4) for nb in (1, 2, 3) for h in (0, 1) for we in (0, 1)] + \
-        [{"special": "reflush", "n": n, "depth": d} for n in (1, 2, 3) for d in (1, 2, 3)]
+        [{"special": "reflush", "n": n, "depth": d} for n in (1, 2, 3) for d in (1, 2, 3)] + \
+        cc.corefam4.hookssurvive_cases(tier, cc.fork(rng, "hooks")) + cc.corefam4.eventhook_cases(tier, cc.fork(rng, "eventhook")) + \
+        cc.guard_cases(tier, cc.fork(rng, "guard"))
 
 
 def plan(tier, seed):
